@@ -346,7 +346,7 @@ func (p *c10prop) CaseCPU(tier string) int { return 60 }
 func (p *c10prop) Plan(tier string, seed int64) []core.Segment {
 	l2, l3, mm, fam := 12, 7, 5, int64(5000)
 	if tier == "thorough" {
-		l2, l3, mm, fam = 14, 9, 6, 100000
+		l2, l3, mm, fam = 16, 10, 6, 200000
 	}
 	return []core.Segment{
 		{Kind: fmt.Sprintf("exh2:%d:%d", l2, mm), N: exhCount(2, l2), Exhaustive: true},
@@ -571,7 +571,7 @@ func (p *c10prop) Run(c *core.Case, st *core.Stats) []core.Violation {
 
 func init() {
 	core.Register(&c10prop{base{id: "C10", level: "exploration",
-		rule:        "exhaustive small scope: all texts over {a,b} up to length 12 (thorough 14) and over {a,b,c} up to length 7 (thorough 9), each with ALL 0 <= minLen <= maxLen <= 5 (thorough 6), plus seeded family texts up to 200 bytes with random (minLen, maxLen); Segments receives a naively computed suffix array and LCP table (independent of C09); each call runs twice: callback copies only / callback sorts the segment in place (as osap.go does); every clause is decided by brute force over all suffix pairs from a pairwise LCP matrix; non-trivial iff len(t) >= 3; distinct = distinct (text, bounds)",
+		rule:        "exhaustive small scope: all texts over {a,b} up to length 12 (thorough 16) and over {a,b,c} up to length 7 (thorough 10), each with ALL 0 <= minLen <= maxLen <= 5 (thorough 6), plus seeded family texts up to 200 bytes with random (minLen, maxLen); Segments receives a naively computed suffix array and LCP table (independent of C09); each call runs twice: callback copies only / callback sorts the segment in place (as osap.go does); every clause is decided by brute force over all suffix pairs from a pairwise LCP matrix; non-trivial iff len(t) >= 3; distinct = distinct (text, bounds)",
 		assumptions: []string{"minLen > maxLen and negative bounds are outside the quantifier of C10 and are not executed"},
 		mandatory:   []string{"segments_calls", "pairs_checked", "texts_with_fall_and_rise_profile", "empty_text", "callbacks"}}})
 }
